@@ -2,7 +2,7 @@
 Model of the legacy extended-name listener machinery for the fragment shared
 with `observe` (property C16):
 
-  traits/traits_listener.py   ListenerItem.register        331-438  (as of /repo bead785; the
+  traits/traits_listener.py   ListenerItem.register        331-438  (as of /repo 0c9dae1; the
                                 `except DelegationError` fallback added there only concerns
                                 delegate traits, which the fragment does not contain)
                               ListenerItem.unregister      440-453
@@ -10,9 +10,9 @@ with `observe` (property C16):
                               handle_list / _items         478-493
                               handle_dict / _items         503-534
                               _register_simple             563-630
-                              _register_list               632-734
-                              _register_dict               746-829
-                              ListenerParser.parse_item    1121-1225 (only: the
+                              _register_list               632-738
+                              _register_dict               749-835
+                              ListenerParser.parse_item    1127-1231 (only: the
                                 first item carries the handler type, every
                                 later item is ANY_LISTENER; `.`/`:` = notify)
   traits/has_traits.py        _on_trait_change             2192-2265 (add with
@@ -29,7 +29,7 @@ freshly allocated object (`Heap.next`).
 
 Not modelled (outside the common fragment): wildcards / metadata / `?` / `*`
 names, ListenerGroup, DST handlers (1- and 2-argument signatures, `handle_dst`,
-`handle_error`), `deferred=True`, `priority=True`, dispatch other than "same",
+`handle_error`), `priority=True`, dispatch other than "same",
 `dispose()` muting a method wrapper that is removed while a snapshot holding it
 is being called (cannot happen on trees: a handler never removes a notifier of
 the object whose notifiers are being called).
@@ -116,10 +116,15 @@ structure Name where
   links : List Link
   final : Final
   htype : LType
+  /-- `on_trait_change(..., deferred=True)`; every `@on_trait_change`-decorated method is
+  registered this way (has_traits.py `_init_trait_listeners`).  Only the FIRST
+  `ListenerItem` is deferred (parse_item passes `deferred=False` down).  Carried for the
+  line protocol; see `registerTop` for why it does not change the model's behaviour. -/
+  deferred : Bool := false
   deriving Repr
 
 /-- `ListenerItem.type` of item `k` (parse_item: only the first item gets the
-handler's type, "bug-for-bug compatibility", traits_listener.py:1190-1197). -/
+handler's type, "bug-for-bug compatibility", traits_listener.py:1196-1203). -/
 def typeOf (ty0 : LType) (k : Nat) : LType := if k = 0 then ty0 else .any
 
 def isContainer : Attr → Bool
@@ -203,6 +208,18 @@ def unregister (h : Heap) (ty0 : LType) (fin : Final) : Nat → List Link → Na
       -- `next.unregister(getattr(object, name))`: the CURRENT value(s)
       (targets h l.attr o).foldl (fun s c => unregister h ty0 fin (k + 1) rest c s) s1
     else s
+
+/-- `listener.register(self)` for the whole name (has_traits.py `on_trait_change`, add
+branch).  `deferred=True` only concerns the first item: `_register_simple`,
+`_register_list` and `_register_dict` skip the walk into the current value(s) iff the
+item is deferred AND the attribute is not yet in `object.__dict__`
+(traits_listener.py:616, 726, 824 as of /repo 0c9dae1; before that fix lists and dicts
+were skipped whenever the item was deferred — finding F87).  An attribute that is not
+in `__dict__` still has its default — `None`, `[]`, `{}` for the traits of the fragment —
+so the skipped walk would have visited nothing: in this model (which does not record
+materialisation) a deferred registration is the same function as a plain one. -/
+def registerTop (h : Heap) (N : Name) (s : LState) : LState :=
+  register h N.htype N.final 0 N.links root s
 
 /-- What an intermediate handler does, step by step. -/
 inductive Act where
@@ -384,7 +401,7 @@ def step (N : Name) (st : St) (op : Op) : St × Bool × List Call :=
   | .reg =>
     -- has_traits.py:2617-2641 (a second registration of the same handler is a no-op)
     if st.registered then (st, false, [])
-    else ({ st with s := register st.h N.htype N.final 0 N.links root st.s, registered := true }, true, [])
+    else ({ st with s := registerTop st.h N st.s, registered := true }, true, [])
   | .unreg =>
     -- has_traits.py:2601-2615  `wrapper.listener.unregister(self)`
     if st.registered then
@@ -402,6 +419,10 @@ def step (N : Name) (st : St) (op : Op) : St × Bool × List Call :=
 def run (N : Name) : St → List Op → St
   | st, [] => st
   | st, op :: ops => run N (step N st op).1 ops
+
+def Op.isReg : Op → Bool
+  | .reg => true
+  | _ => false
 
 /-! ### Specification side: reachability along the name (what `observe` promises) -/
 
